@@ -21,7 +21,7 @@ CONSTANTS
   Bug_FlushDeepDuringCompaction = FALSE
   Bug_ExpandKeepsParents = FALSE
 INVARIANTS ReadCorrect WellFormed NothingLiveDeleted SeqSane
-PROPERTIES Invisible NoLeakAfterPass
+PROPERTIES Invisible NoLeakAfterPass ImplementsKV
 CONSTRAINT MCBound
 VIEW MCView
 CHECK_DEADLOCK FALSE
